@@ -16,15 +16,15 @@ Proof.
   pose proof (wf_cells_in a WF c Hc) as Hle. unfold fits32, ser_bound in FIT. lia.
 Qed.
 
-Theorem canonical_file_reserializes : forall a f,
+Theorem canonical_file_reserializes : forall kf a f,
   wf_archive a -> a_cstrs a = [] -> fits32 a ->
-  canonical_size (a_endian a) (a_data a) (isort key_leb (a_ptrs a)) (isort key_leb (a_text a)) (isort key_leb (a_labels a)) < U32 ->
-  canonical (a_endian a) (a_data a) (isort key_leb (a_ptrs a)) (isort key_leb (a_text a)) (isort key_leb (a_labels a)) = Ok f ->
-  exists a', from_bytes (a_endian a) f = Ok a' /\ forall m', serialize m' a' = Ok f.
+  canonical_size kf (a_endian a) (a_data a) (isort key_leb (a_ptrs a)) (isort key_leb (a_text a)) (isort key_leb (a_labels a)) < U32 ->
+  canonical kf (a_endian a) (a_data a) (isort key_leb (a_ptrs a)) (isort key_leb (a_text a)) (isort key_leb (a_labels a)) = Ok f ->
+  exists a', from_bytes (a_endian a) f = Ok a' /\ forall m', serialize_k kf m' a' = Ok f.
 Proof.
-  intros a f WF Hcs FIT Hsz Hcan.
-  rewrite <- (serialize_is_canonical Checked a Hcs (wf_text_cells_u32 a WF FIT) Hsz) in Hcan.
-  destruct (serialize_conforms Checked a WF FIT) as (f0 & Ef0 & _ & Hc). rewrite Hcan in Ef0. inversion Ef0; subst f0.
+  intros kf a f WF Hcs FIT Hsz Hcan.
+  rewrite <- (serialize_is_canonical_maps kf Checked a (wf_label_keys a WF) Hcs (wf_text_cells_u32 a WF FIT) Hsz) in Hcan.
+  destruct (serialize_conforms kf Checked a WF FIT) as (f0 & Ef0 & _ & Hc). rewrite Hcan in Ef0. inversion Ef0; subst f0.
   destruct (parser_correct _ _ _ Hc) as (a' & Ep & _). exists a'. split; [exact Ep|].
-  intros m'. exact (reserialize_identity Checked m' a f a' WF Hcs FIT Hcan Ep).
+  intros m'. exact (reserialize_identity kf Checked m' a f a' WF Hcs FIT Hcan Ep).
 Qed.
